@@ -94,6 +94,10 @@ func (c *Ctx) Nontrivial(id string) {
 	}
 }
 
+// NontrivialN counts n non-trivial cases that are distinct by construction of the enumeration
+// (used where keeping a set of hundreds of millions of identifiers would exhaust memory).
+func (c *Ctx) NontrivialN(n int64) { c.ntCount.Add(n) }
+
 // Outcome records a distinct observed outcome (used to show exploration is not vacuous).
 func (c *Ctx) Outcome(id string) {
 	h := sha1.Sum([]byte(id))
